@@ -122,6 +122,11 @@ package stree
 //@   loop 1: invariant [C01] below: cur != stub ==> (forall y ref :: {inD(cur.right, y)} inD(cur.right, y) ==> y in cur.desc && y != cur)
 //@   loop 1: invariant [C01] values: forall y *node[T] :: {y.X} old(allocated(y)) ==> y.X == old(y.X)
 //@   loop 1: invariant [C01] frame: forall y *node[T] :: {y.left} {y.right} {y.X} {y.keys} {y.desc} {y.cnt} {y.rep} old(allocated(y)) && !(y in D0) ==> sameNode(y)
+//@   loop 1: invariant [C01] spine: cur != stub ==> forall y *node[T] :: {y in D0} y in D0 && !inD(cur.right, y) && y != cur ==> inD(y.right, cur)
+//@   at after "L := C.left": assert [C01] C in D0 && L in D0 && L != C && L in C.desc && !(C in L.desc) && (cur != stub ==> C in cur.desc && C != cur && L != cur)
+//@   at after "L := C.left": assert [C01] forall y *node[T] :: {y in D0} y in D0 && inD(cur.right, y) && y != C ==> y.left != C && y.right != C
+//@   at after "L := C.left": assert [C01] forall y *node[T] :: {y in D0} y in D0 && (y.left == C || y.right == C) ==> y == cur
+//@   at after "L := C.left": assert [C01] forall y *node[T] :: {y in D0} y in D0 && (y.left == L || y.right == L) ==> y == C
 //@   at after "L := C.left": ghost ck = C.keys
 //@   at after "L := C.left": ghost cd = C.desc
 //@   at after "L := C.left": ghost cc = C.cnt
